@@ -168,6 +168,20 @@ def evaluate(contract, clause, bindings, universe=None, spec_from=None):
     return eval(_compile(clause), env)
 
 
+def bind_varkw(contract, fn, bindings, kwargs):
+    """A **name parameter that the contract types is bound to the dict of the extra keyword arguments."""
+    import inspect
+
+    try:
+        sig = inspect.signature(fn)
+    except (TypeError, ValueError):
+        return
+    for p in sig.parameters.values():
+        if p.kind is inspect.Parameter.VAR_KEYWORD and p.name in contract.params:
+            named = {q.name for q in sig.parameters.values() if q.kind is not inspect.Parameter.VAR_KEYWORD}
+            bindings[p.name] = {k: v for k, v in kwargs.items() if k not in named}
+
+
 def check_call(contract, fn, args, kwargs=None, argnames=None, universe=None, check_pre=True, self_obj=None, ghost=None):
     """Run fn(*args, **kwargs) under the contract.  Returns the result.
     Raises ContractViolation('pre'|'post'|'raises', clause)."""
@@ -180,6 +194,7 @@ def check_call(contract, fn, args, kwargs=None, argnames=None, universe=None, ch
     for n, a in zip(pos_names, args):
         bindings[n] = a
     bindings.update(kwargs)
+    bind_varkw(contract, fn, bindings, kwargs)
     for n, d in contract.defaults.items():
         if n not in bindings:
             bindings[n] = eval(d)
@@ -224,7 +239,11 @@ def check_call(contract, fn, args, kwargs=None, argnames=None, universe=None, ch
     post_bind["__old__"] = __old__
     post_bind["fresh_ref"] = lambda x: id(x) not in ids_before
     for post in list(contract.ensures) + list(contract.ensures_rt):
-        ok = evaluate(contract, post, post_bind, universe, spec_from=old_env)
+        try:
+            ok = evaluate(contract, post, post_bind, universe, spec_from=old_env)
+        except (TypeError, IndexError, KeyError, AttributeError, ValueError) as e:
+            # the result does not even have the shape the clause talks about
+            raise ContractViolation("post", post, f"clause cannot be evaluated on result={result!r}: {type(e).__name__}: {e}")
         if not ok:
             raise ContractViolation("post", post, f"result={result!r}")
     return result
